@@ -7,7 +7,7 @@
 //!   * all entry points agree on the same text;
 //!   * an accepted text re-formats to its canonical form, a formatted value parses back to itself.
 
-use emit::{SpanId, Timestamp, TraceId, Value};
+use emit::{Props, SpanId, Timestamp, TraceId, Value};
 use std::time::Duration;
 use emit_traceparent::{TraceFlags, Traceparent};
 use hcommon::{catch, Rng, Sexp, Stream, Tier};
@@ -124,6 +124,7 @@ fn parse_tid(bytes: &[u8]) -> String {
         v.add("cast(str)", Out::of_option(|| Value::from(s).cast::<TraceId>().map(|t| t.to_u128())));
         let d = Disp(s);
         v.add("cast(display)", Out::of_option(|| Value::from_display(&d).cast::<TraceId>().map(|t| t.to_u128())));
+        v.add("pull", Out::of_option(|| [("trace_id", Value::from(s))].pull::<TraceId, _>("trace_id").map(|t| t.to_u128())));
         if let Out::Ok(x) = &v.outs[0].1 {
             let back = TraceId::from_u128(*x).map(|t| t.to_string());
             if back.as_deref() != Some(&s.to_ascii_lowercase()) {
@@ -144,6 +145,7 @@ fn parse_sid(bytes: &[u8]) -> String {
         v.add("cast(str)", Out::of_option(|| Value::from(s).cast::<SpanId>().map(|t| t.to_u64())));
         let d = Disp(s);
         v.add("cast(display)", Out::of_option(|| Value::from_display(&d).cast::<SpanId>().map(|t| t.to_u64())));
+        v.add("pull", Out::of_option(|| [("span_id", Value::from(s))].pull::<SpanId, _>("span_id").map(|t| t.to_u64())));
         if let Out::Ok(x) = &v.outs[0].1 {
             let back = SpanId::from_u64(*x).map(|t| t.to_string());
             if back.as_deref() != Some(&s.to_ascii_lowercase()) {
@@ -653,6 +655,7 @@ fn parse_ts(bytes: &[u8]) -> String {
     v.add("cast(str)", Out::of_option(|| Value::from(s).cast::<Timestamp>().map(|t| ns_of_ts(&t))));
     let d = Disp(s);
     v.add("cast(display)", Out::of_option(|| Value::from_display(&d).cast::<Timestamp>().map(|t| ns_of_ts(&t))));
+    v.add("pull", Out::of_option(|| [("ts", Value::from(s))].pull::<Timestamp, _>("ts").map(|t| ns_of_ts(&t))));
     if let Out::Ok(_) = &v.outs[0].1 {
         // the documented grammar: DDDD-DD-DDTDD:DD:DD[.D{1,9}]Z
         let b = s.as_bytes();
@@ -1243,6 +1246,7 @@ fn run_kind(line: &str) -> String {
                 v.add("cast(str)", Out::of_option(|| Value::from(text).cast::<emit::Kind>()));
                 let d = Disp(text);
                 v.add("cast(display)", Out::of_option(|| Value::from_display(&d).cast::<emit::Kind>()));
+                v.add("pull", Out::of_option(|| [("evt_kind", Value::from(text))].pull::<emit::Kind, _>("evt_kind")));
                 let out = v.finish(show_kind);
                 // render like the model: span | metric | none
                 if let Some(rest) = out.strip_prefix("ok(") {
